@@ -353,6 +353,12 @@ func Run(c Case) int {
 				}
 				return
 			}
+			if outcome == "gone" {
+				// a first envelope in the wrong state, and away
+				_ = t.Send(ctx, &lime.Session{State: lime.SessionStateAuthenticating})
+				_ = t.Close()
+				return
+			}
 			if outcome == "err" {
 				m := &lime.Message{}
 				m.SetContent(lime.TextDocument("not a session"))
